@@ -38,16 +38,13 @@ for i in range(1, 21):
     out.append('')
     out.append('| rule | instances | floor | discharged by | fired on seeds |')
     out.append('|---|---|---|---|---|')
-    by_rule = collections.defaultdict(collections.Counter)
-    for o in c.get('obligations', []) or []:
-        by = (o.get('by') or o.get('status')).split(':')[0].split(' (')[0]
-        by_rule[o['rule']][by] += 1
+    by_rule = {k: collections.Counter(v) for k, v in (c.get('per_rule_discharged_by') or {}).items()}
     rules = sorted(set(list(c.get('per_rule', {}).keys()) + list(c.get('floors', {}).keys())))
     for r in rules:
         pr = c.get('per_rule', {}).get(r, {})
         n = sum(pr.values()) // ncfg
         fl = c.get('floors', {}).get(r, '')
-        by = ', '.join(f'{k} {v // ncfg}' for k, v in sorted(by_rule[r].items()))
+        by = ', '.join(f'{k} {v // ncfg}' for k, v in sorted(by_rule.get(r, {}).items()))
         sd = ', '.join(sorted(rule_seeds.get(r, [])))
         out.append(f'| {r} | {n} | {fl} | {by} | {sd} |')
     out.append('')
